@@ -77,6 +77,16 @@ def build():
         if re.search(r"clamp\(|saturating|min\(|max\(|try_from|try_into", body):
             raise GenError("Serial from a point in time clamps / checks instead of wrapping")
     defs.append(("from_time_cast_wraps", "bool", "true"))
+    # commit(true): the SOA serial is bumped with Serial::add(1) exactly when the writer left the
+    # SOA alone (absent in the new version, or EQUAL to the published one) - no ordering of SOA
+    # records or serials decides it
+    wz = strip_comments(read("src/zonetree/in_memory/write.rs"))
+    one(r"if\s+bump_soa_serial\s*&&\s*old_soa_rr\.is_some\(\)\s*&&\s*\(\s*new_soa_rr\.is_none\(\)\s*\|\|\s*new_soa_rr\s*==\s*old_soa_rr\s*\)\s*\{\s*self\.bump_soa_serial\(&old_soa_rr\);",
+        wz, "commit(): bump condition `new_soa_rr.is_none() || new_soa_rr == old_soa_rr`")
+    m = one(r"let\s+new_soa_serial\s*=\s*old_soa\.serial\(\)\.add\((\d+)\)\s*;", fn_body(wz, "bump_soa_serial"),
+            "bump_soa_serial(): `old_soa.serial().add(1)`")
+    defs.append(("commit_bump_addend", "N", str(num(m.group(1)))))
+    defs.append(("commit_bumps_iff_soa_untouched", "bool", "true"))
     # the derived comparison operators must not be overridden
     pc_impl = impl_body(src, r"impl\s+cmp::PartialOrd\s+for\s+Serial")
     for op in ("lt", "le", "gt", "ge"):
